@@ -248,9 +248,12 @@ class JobResult:
         self.log = ""
 
 
-def run_job(job, prop_id, workroot, tier):
+def run_job(job, prop_id, workroot, tier, deadline=None):
     res = JobResult(job)
     t_start = time.time()
+    if deadline is not None and time.time() >= deadline:
+        res.status, res.reason = "skipped", "quick-tier wall budget exhausted before this job started"
+        return res
     wd = os.path.join(workroot, re.sub(r"[^A-Za-z0-9_.-]", "_", job["name"]))
     os.makedirs(wd, exist_ok=True)
     harness = os.path.join(VERIF, job["harness"])
@@ -344,10 +347,17 @@ def run_job(job, prop_id, workroot, tier):
     if "--object-bits" not in " ".join(cmd):
         pass
     res.cmds.append(" ".join(cmd))
-    r = run(cmd, wd, timeout, mem)
+    eff_timeout, budget_cut = timeout, False
+    if deadline is not None and deadline - time.time() < timeout:
+        eff_timeout, budget_cut = max(1, int(deadline - time.time())), True
+    r = run(cmd, wd, eff_timeout, mem)
     res.solver_s = r["s"]
     res.total_s = time.time() - t_start
     if r["rc"] == "timeout":
+        if budget_cut:
+            res.status = "skipped"
+            res.reason = "stopped after %ds by the quick-tier wall budget (job timeout is %ds)" % (eff_timeout, timeout)
+            return res
         res.reason = "cbmc timeout after %ds" % timeout
         return res
     try:
@@ -571,7 +581,9 @@ def main():
     sel.sort(key=lambda j: -ledger.get(j["name"], {}).get("s", 1))
     try:
         with cf.ThreadPoolExecutor(max_workers=args.jobs) as ex:
-            futs = {ex.submit(run_job, j, prop_id, workroot, args.tier): j for j in sel}
+            budget = float(os.environ.get("VF_QUICK_BUDGET", "780"))
+            deadline = (t0 + budget) if (args.tier == "quick" and budget > 0 and not args.update_ledger) else None
+            futs = {ex.submit(run_job, j, prop_id, workroot, args.tier, deadline): j for j in sel}
             for fu in cf.as_completed(futs):
                 r = fu.result()
                 results.append(r)
@@ -665,6 +677,12 @@ def main():
                 exit_code = max(exit_code, 2) if exit_code != 1 else 1
 
         exit_code = 1 if violations else (2 if undecided else 0)
+        if exit_code == 0 and not any(r.status in ("ok", "known") for r in results):
+            print("UNDECIDED property=%s: no job was decided in this run" % prop_id)
+            exit_code = 2
+        skipped = [r for r in results if r.status == "skipped"]
+        for r in skipped:
+            print("SKIPPED property=%s job=%s: %s" % (prop_id, r.name, r.reason))
         for l in known_lines:
             print(l)
         for r in undecided:
@@ -776,6 +794,7 @@ def write_evidence(prop_id, reg, results, tier, seed, wall, violations, known_li
         "exhaustive_native_note": "complete native enumerations of a finite input space against the real code; reported separately, NOT counted among the deductive obligations",
         "known_findings_reported": known_lines,
         "undecided_jobs": [r.name for r in undecided],
+        "skipped_for_wall_budget": [r.name for r in results if r.status == "skipped"],
         "explanation": reg.get("explanation", ""),
         "not_covered": reg.get("not_covered", []),
     }
